@@ -421,6 +421,11 @@ def normalize_ids(text):
         cols = ln.split("\t")
         if len(cols) == 9 and not ln.startswith("#"):
             at = cols[8].split(";")
+            # an isoform without a biotype of its own is written "unspecified" and read back with its gene's biotype (documented
+            # fallback), so the two spellings denote the same thing in a re-export
+            gb_ = [x.split("=", 1)[1] for x in at if x.startswith("gene_biotype=")]
+            if gb_:
+                at = [("transcript_biotype=" + gb_[0]) if x == "transcript_biotype=unspecified" else x for x in at]
             cols[8] = ";".join(at[:1] + sorted(at[1:]))
         return "\t".join(cols)
     lines = [_canon(ln) for ln in lines]
@@ -665,7 +670,8 @@ def check_attributes(spec, ctx):
 
 # ------------------------------------------------------------------------------------ strategies
 
-VAL_ALPHA = "abcXYZ019_.-" + "".join(SPECIALS)
+# (incl. white space that is not ASCII - no-break, thin and ideographic space - which must come back as it went in)
+VAL_ALPHA = "abcXYZ019_.-" + "".join(SPECIALS) + "\u00a0\u2009\u3000"
 
 
 def qual_strategy(specials=True, allow_comma=True, allow_dquote=True, lookalikes=True, reserved=False, max_keys=3):
@@ -703,6 +709,9 @@ def strat_syntax(draw, tier="quick"):
         for f in c["features"]:
             f["qualifiers"] = draw(qs)
     n = hi + draw(st.integers(1, 6))
+    if draw(st.integers(0, 5)) == 0:
+        # sequence lengths around the FASTA line length (60): one base more, one base less, exactly one or two lines
+        n = max(n, draw(st.sampled_from([59, 60, 61, 119, 120, 121])))
     sp = {"obj": o, "genome": draw(S.dna(n, n)), "fasta": draw(st.booleans()), "raise_reserved": draw(st.booleans()),
           "container": draw(st.sampled_from(["list", "list", "tuple", "generator", "iterator"])), "scribble_rows": draw(st.integers(0, 2)) == 0}
     lo = min([t["exons"][0][0] for g in o["genes"] for t in g["transcripts"]] + [f["blocks"][0][0] for c in o["feature_collections"] for f in c["features"]])
